@@ -17,6 +17,8 @@ N2  `x = a if c else b`  ->  `if c: x = a` / `else: x = b`   (conditional expres
 N3  `x = []` ; `for T in IT: x.append(E)`  ->  `x = [E for T in IT]`   (the loop spelling of a list comprehension).
 N4  `A[k] = A[k] + e`  ->  `A[k] += e`   (read-modify-write of one array cell; never for plain names, where the two differ).
 N5  `if c: r = A` / `else: r = B` ; `return r`  ->  `return A` / `return B`   (one result variable returned at the end of the function).
+N6  `r = f(..); a = r[0]; b = r[1]`  ->  `a, b = f(..)`   (a tuple result kept whole and only indexed).
+N7  `0 > k`  ->  `k < 0`   (numeric constant moved to the right-hand side of a single comparison).
 
 Nothing else is rewritten; line numbers of the surviving nodes are kept, inlined statements carry the line of the call.
 """
@@ -593,6 +595,100 @@ def _result_variable_to_returns(tree: ast.Module) -> None:
         body.pop()
 
 
+# --------------------------------------------------------------------------------------------- N6 / N7
+
+_MIRROR = {ast.Lt: ast.Gt, ast.Gt: ast.Lt, ast.LtE: ast.GtE, ast.GtE: ast.LtE, ast.Eq: ast.Eq, ast.NotEq: ast.NotEq}
+
+
+class _ConstantOnTheRight(ast.NodeTransformer):
+    """`0 > k`  ->  `k < 0`   (a single comparison whose left operand is a numeric constant and whose right one is not)"""
+    def visit_Compare(self, node: ast.Compare):
+        self.generic_visit(node)
+        if len(node.ops) == 1 and type(node.ops[0]) in _MIRROR and isinstance(node.left, ast.Constant) \
+                and isinstance(node.left.value, (int, float)) and not isinstance(node.left.value, bool) \
+                and not isinstance(node.comparators[0], ast.Constant):
+            return ast.copy_location(ast.Compare(left=node.comparators[0], ops=[_MIRROR[type(node.ops[0])]()], comparators=[node.left]), node)
+        return node
+
+
+def _indexed_result_to_unpacking(tree: ast.Module) -> None:
+    """`r = f(..)` whose only uses are `r[0]`, `r[1]`, .. (all of 0..k-1)  ->  `(r0, .., rk-1) = f(..)`; a following
+    `x = r[j]` (x assigned nowhere else) gives the component its name and disappears.  `a, b = f(..)` and
+    `r = f(..); a = r[0]; b = r[1]` are the same program."""
+    for fn in ast.walk(tree):
+        if not isinstance(fn, ast.FunctionDef):
+            continue
+        stores: Dict[str, int] = {}
+        for n in ast.walk(fn):
+            if isinstance(n, ast.Name) and isinstance(n.ctx, ast.Store):
+                stores[n.id] = stores.get(n.id, 0) + 1
+        for holder in ast.walk(fn):
+            for fld in ("body", "orelse", "finalbody"):
+                block = getattr(holder, fld, None)
+                if not (isinstance(block, list) and block and isinstance(block[0], ast.stmt)):
+                    continue
+                i = 0
+                while i < len(block):
+                    st = block[i]
+                    i += 1
+                    if not (isinstance(st, ast.Assign) and len(st.targets) == 1 and isinstance(st.targets[0], ast.Name)
+                            and isinstance(st.value, ast.Call) and stores.get(st.targets[0].id) == 1):
+                        continue
+                    r = st.targets[0].id
+                    loads = [n for n in ast.walk(fn) if isinstance(n, ast.Name) and n.id == r and isinstance(n.ctx, ast.Load)]
+                    subs = [n for n in ast.walk(fn) if isinstance(n, ast.Subscript) and isinstance(n.value, ast.Name) and n.value.id == r
+                            and isinstance(n.ctx, ast.Load) and isinstance(n.slice, ast.Constant) and isinstance(n.slice.value, int)]
+                    if not loads or len(subs) != len(loads):
+                        continue
+                    idxs = sorted({n.slice.value for n in subs})
+                    if idxs != list(range(len(idxs))) or len(idxs) < 2:
+                        continue
+                    names: Dict[int, str] = {}
+                    cell_targets: Dict[int, ast.AST] = {}
+                    drop: List[ast.stmt] = []
+                    # the statements that directly follow and only move one component to its destination, in order
+                    expect = 0
+                    for later in block[i:]:
+                        if isinstance(later, ast.Assign) and len(later.targets) == 1 and any(later.value is n for n in subs) \
+                                and later.value.slice.value >= expect and later.value.slice.value not in names \
+                                and later.value.slice.value not in cell_targets \
+                                and sum(1 for n in subs if n.slice.value == later.value.slice.value) == 1:
+                            j_ = later.value.slice.value
+                            t_ = later.targets[0]
+                            if isinstance(t_, ast.Name) and stores.get(t_.id) == 1:
+                                names[j_] = t_.id
+                            elif isinstance(t_, (ast.Subscript, ast.Attribute)):
+                                cell_targets[j_] = t_
+                            else:
+                                break
+                            drop.append(later)
+                            expect = j_ + 1
+                        else:
+                            break
+                    for later in block[i:]:
+                        if later in drop:
+                            continue
+                        if isinstance(later, ast.Assign) and len(later.targets) == 1 and isinstance(later.targets[0], ast.Name) \
+                                and any(later.value is n for n in subs) and stores.get(later.targets[0].id) == 1 \
+                                and later.value.slice.value not in names and later.value.slice.value not in cell_targets:
+                            names[later.value.slice.value] = later.targets[0].id
+                            drop.append(later)
+                    for j in idxs:
+                        if j not in cell_targets:
+                            names.setdefault(j, f"{r}__{j}")
+
+                    class Sub(ast.NodeTransformer):
+                        def visit_Subscript(self, n):
+                            if any(n is x for x in subs) and n.slice.value in names:
+                                return ast.copy_location(ast.Name(id=names[n.slice.value], ctx=ast.Load()), n)
+                            return self.generic_visit(n)
+                    for d in drop:
+                        block.remove(d)
+                    Sub().visit(fn)
+                    st.targets = [ast.Tuple(elts=[cell_targets[j] if j in cell_targets else ast.Name(id=names[j], ctx=ast.Store())
+                                                  for j in idxs], ctx=ast.Store())]
+
+
 def normalise(tree: ast.Module, modname: str) -> List[str]:
     if os.environ.get("GBSA_NO_NORMALIZE"):
         return []
@@ -601,5 +697,7 @@ def normalise(tree: ast.Module, modname: str) -> List[str]:
     _loop_append_to_comprehension(tree)
     _CellAugAssign().visit(tree)
     _result_variable_to_returns(tree)
+    _indexed_result_to_unpacking(tree)
+    _ConstantOnTheRight().visit(tree)
     ast.fix_missing_locations(tree)
     return notes
